@@ -57,12 +57,12 @@ func (w *wfile) fn(name, recv string) (*ast.FuncDecl, error) {
 	return nil, fmt.Errorf("function %s (receiver %q) not found", name, recv)
 }
 
-func leanStr(s string) string { return strconv.Quote(s) }
+func walletLeanStr(s string) string { return strconv.Quote(s) }
 
-func leanStrList(l []string) string {
+func walletLeanStrList(l []string) string {
 	q := make([]string, len(l))
 	for i, s := range l {
-		q[i] = leanStr(s)
+		q[i] = walletLeanStr(s)
 	}
 	return "[" + strings.Join(q, ", ") + "]"
 }
@@ -257,7 +257,7 @@ func genWalletFacts(repo string) (string, error) {
 	if err != nil {
 		return "", err
 	}
-	fmt.Fprintf(&b, "def votePendingRangeTest : List String := %s\n", leanStrList(cg.ifConds(fd.Body, func(*ast.IfStmt) bool { return true })))
+	fmt.Fprintf(&b, "def votePendingRangeTest : List String := %s\n", walletLeanStrList(cg.ifConds(fd.Body, func(*ast.IfStmt) bool { return true })))
 
 	// ---- protocol/state/utxo_view.go
 	uv, err := wparse(repo, "protocol/state/utxo_view.go")
@@ -282,7 +282,7 @@ func genWalletFacts(repo string) (string, error) {
 	if len(locks) == 0 {
 		return "", fmt.Errorf("applySpendUtxo: no maturity cases found")
 	}
-	fmt.Fprintf(&b, "def consensusSpendLocks : List String := %s\n", leanStrList(locks))
+	fmt.Fprintf(&b, "def consensusSpendLocks : List String := %s\n", walletLeanStrList(locks))
 
 	// ---- wallet/utxo.go
 	wu, err := wparse(repo, "wallet/utxo.go")
@@ -293,7 +293,7 @@ func genWalletFacts(repo string) (string, error) {
 	if err != nil {
 		return "", err
 	}
-	fmt.Fprintf(&b, "def detachOutputAccessors : List String := %s\n", leanStrList(wu.methodCalls(fd.Body, "tx")))
+	fmt.Fprintf(&b, "def detachOutputAccessors : List String := %s\n", walletLeanStrList(wu.methodCalls(fd.Body, "tx")))
 	var rng []string
 	ast.Inspect(fd.Body, func(x ast.Node) bool {
 		if fs, ok := x.(*ast.ForStmt); ok && fs.Init != nil {
@@ -301,7 +301,7 @@ func genWalletFacts(repo string) (string, error) {
 		}
 		return true
 	})
-	fmt.Fprintf(&b, "def detachTxLoop : List String := %s\n", leanStrList(rng))
+	fmt.Fprintf(&b, "def detachTxLoop : List String := %s\n", walletLeanStrList(rng))
 	fd, err = wu.fn("txOutToUtxos", "")
 	if err != nil {
 		return "", err
@@ -310,7 +310,7 @@ func genWalletFacts(repo string) (string, error) {
 	if err != nil {
 		return "", err
 	}
-	fmt.Fprintf(&b, "def txOutCases : List String := %s\n", leanStrList(cs))
+	fmt.Fprintf(&b, "def txOutCases : List String := %s\n", walletLeanStrList(cs))
 	var vh []string
 	ast.Inspect(fd.Body, func(x ast.Node) bool {
 		if as, ok := x.(*ast.AssignStmt); ok && len(as.Lhs) == 1 && len(as.Rhs) == 1 {
@@ -321,8 +321,8 @@ func genWalletFacts(repo string) (string, error) {
 		}
 		return true
 	})
-	fmt.Fprintf(&b, "def txOutValidHeightAssignments : List String := %s\n", leanStrList(vh))
-	fmt.Fprintf(&b, "def txOutSkips : List String := %s\n", leanStrList(wu.ifConds(fd.Body, func(is *ast.IfStmt) bool {
+	fmt.Fprintf(&b, "def txOutValidHeightAssignments : List String := %s\n", walletLeanStrList(vh))
+	fmt.Fprintf(&b, "def txOutSkips : List String := %s\n", walletLeanStrList(wu.ifConds(fd.Body, func(is *ast.IfStmt) bool {
 		return len(is.Body.List) == 1 && wu.str(is.Body.List[0]) == "continue"
 	})))
 	fd, err = wu.fn("txInToUtxos", "")
@@ -333,7 +333,7 @@ func genWalletFacts(repo string) (string, error) {
 	if err != nil {
 		return "", err
 	}
-	fmt.Fprintf(&b, "def txInCases : List String := %s\n", leanStrList(cs))
+	fmt.Fprintf(&b, "def txInCases : List String := %s\n", walletLeanStrList(cs))
 	setsVH := false
 	ast.Inspect(fd.Body, func(x ast.Node) bool {
 		if kv, ok := x.(*ast.KeyValueExpr); ok {
@@ -344,7 +344,7 @@ func genWalletFacts(repo string) (string, error) {
 		return true
 	})
 	fmt.Fprintf(&b, "def txInSetsValidHeight : Bool := %v\n", setsVH)
-	fmt.Fprintf(&b, "def txInSkips : List String := %s\n", leanStrList(wu.ifConds(fd.Body, func(is *ast.IfStmt) bool {
+	fmt.Fprintf(&b, "def txInSkips : List String := %s\n", walletLeanStrList(wu.ifConds(fd.Body, func(is *ast.IfStmt) bool {
 		return len(is.Body.List) == 1 && wu.str(is.Body.List[0]) == "continue"
 	})))
 
@@ -375,7 +375,7 @@ func genWalletFacts(repo string) (string, error) {
 			second = uk.str(stmts[1])
 		}
 		whole := first == "uk.mtx.Lock()" && (second == "defer uk.mtx.Unlock()" || last == "uk.mtx.Unlock()")
-		lockRows = append(lockRows, fmt.Sprintf("(%s, %v)", leanStr(m.Name.Name), whole))
+		lockRows = append(lockRows, fmt.Sprintf("(%s, %v)", walletLeanStr(m.Name.Name), whole))
 	}
 	sort.Strings(lockRows)
 	fmt.Fprintf(&b, "def keeperMethodsHoldMutex : List (String × Bool) := [%s]\n", strings.Join(lockRows, ", "))
@@ -389,7 +389,7 @@ func genWalletFacts(repo string) (string, error) {
 			dec = append(dec, uk.str(is.Cond)+" => "+uk.str(is.Body.List[0]))
 		}
 	}
-	fmt.Fprintf(&b, "def reserveDecisions : List String := %s\n", leanStrList(dec))
+	fmt.Fprintf(&b, "def reserveDecisions : List String := %s\n", walletLeanStrList(dec))
 	fd, err = uk.fn("findUtxos", "*utxoKeeper")
 	if err != nil {
 		return "", err
@@ -416,8 +416,8 @@ func genWalletFacts(repo string) (string, error) {
 	if len(closure) == 0 {
 		return "", fmt.Errorf("findUtxos: appendUtxo closure not found")
 	}
-	fmt.Fprintf(&b, "def findUtxosAppend : List String := %s\n", leanStrList(closure))
-	fmt.Fprintf(&b, "def findUtxosListingOrder : List String := %s\n", leanStrList(loops))
+	fmt.Fprintf(&b, "def findUtxosAppend : List String := %s\n", walletLeanStrList(closure))
+	fmt.Fprintf(&b, "def findUtxosListingOrder : List String := %s\n", walletLeanStrList(loops))
 	fd, err = uk.fn("optUTXOs", "*utxoKeeper")
 	if err != nil {
 		return "", err
@@ -434,7 +434,7 @@ func genWalletFacts(repo string) (string, error) {
 		}
 		return true
 	})
-	fmt.Fprintf(&b, "def optUTXOsConditions : List String := %s\n", leanStrList(conds))
+	fmt.Fprintf(&b, "def optUTXOsConditions : List String := %s\n", walletLeanStrList(conds))
 
 	// ---- account/builder.go
 	ab, err := wparse(repo, "account/builder.go")
@@ -462,7 +462,7 @@ func genWalletFacts(repo string) (string, error) {
 	if len(changeOut) == 0 {
 		return "", fmt.Errorf("spendAction.Build: change output not found")
 	}
-	fmt.Fprintf(&b, "def spendChangeOutputArgs : List String := %s\n", leanStrList(changeOut))
+	fmt.Fprintf(&b, "def spendChangeOutputArgs : List String := %s\n", walletLeanStrList(changeOut))
 	tg, err := wparse(repo, "protocol/bc/types/transaction.go")
 	if err != nil {
 		return "", err
@@ -471,7 +471,7 @@ func genWalletFacts(repo string) (string, error) {
 	if err != nil {
 		return "", err
 	}
-	fmt.Fprintf(&b, "def feeConditions : List String := %s\n", leanStrList(tg.ifConds(fd.Body, func(*ast.IfStmt) bool { return true })))
+	fmt.Fprintf(&b, "def feeConditions : List String := %s\n", walletLeanStrList(tg.ifConds(fd.Body, func(*ast.IfStmt) bool { return true })))
 	b.WriteString("\nend BytomModel.Gen.WalletFacts\n")
 	return b.String(), nil
 }
